@@ -94,6 +94,8 @@ def gen(rng, tier, index):
     family = rng.choice(['api', 'api', 'api', 'api', 'wire', 'thread'])
     n_bulbs = rng.randint(1, 5)
     gc = rng.choice([20, 60, 300])
+    if family == 'api' and rng.random() < 0.12:
+        gc = rng.choice([0, 0, 1])     # edge: "expire at once" is a legal age
     pop = [_rand_state(rng) for _ in range(n_bulbs)]
     steps = [['pop', pop]]
     n_steps = rng.randint(3, 12) if family == 'api' else rng.randint(2, 6)
@@ -112,7 +114,7 @@ def gen(rng, tier, index):
                 cur = _unique(cur, rng)
             steps.append(['pop', cur])
         elif k == 'advance':
-            dt = rng.choice([1, gc - 2, gc + 2, gc // 2, 2 * gc, gc])
+            dt = max(0, rng.choice([1, gc - 2, gc + 2, gc // 2, 2 * gc, gc]))
             steps.append(['advance', dt])
         elif k == 'fail':
             steps.append([rng.choice(['fail_discover', 'fail_refresh'])])
